@@ -640,11 +640,11 @@ func (s *scanner) string() Token {
 			case 't':
 				valueBuilder.WriteRune('\t')
 			default:
-				valueBuilder.WriteRune(c)
+				valueBuilder.WriteString(s.s[s.last:s.pos])
 			}
 		default:
 			if valueBuilder != nil {
-				valueBuilder.WriteRune(c)
+				valueBuilder.WriteString(s.s[s.last:s.pos])
 			}
 		}
 	}
